@@ -191,7 +191,7 @@ pub fn resolve_path(m: &Model, cfg: &GenCfg, s: &Sel, excluded: &mut u64) -> Str
     lit
 }
 
-const MODES: &[u32] = &[0o644, 0o755, 0o700, 0o600, 0o555, 0o444, 0o777, 0o100, 0o1, 0o222, 0o640, 0o511, 0o1777, 0o4755, 0o2750];
+const MODES: &[u32] = &[0o644, 0o755, 0o700, 0o600, 0o555, 0o444, 0o777, 0o100, 0o1, 0o222, 0o640, 0o511, 0o1777, 0o4755, 0o464, 0o610, 0o020];
 const SYMS: &[&str] = &["a:a+x", "f:u+x", "d:go-rwx", "a:o=r", "f:a-w", "d:a+x,f:a-x", "f:a+r,f:a-wx", "a:go-rwx", "a:ug=rw", "d:u=rwx,d:go=rx"];
 
 fn lines_from(d: &[u8]) -> Vec<String> {
